@@ -247,6 +247,27 @@ pub fn generate(rng: &mut Rng, thorough: bool) -> Vec<String> {
         v.push(format!("tz_inst o:0 {y} {m} {d} 12 0 0 0 0 0 compatible"));
         v.push(format!("tz_inst o:0 {y} {m} {d} 0 0 0 0 0 0 reject"));
     }
+    // (4d) zoned value -> plain date / time / date-time in a fixed-offset zone: the last and first nanoseconds,
+    // microseconds and milliseconds of a day on both sides of 1970 and at the limits
+    {
+        let day_ns: i128 = 86_400_000_000_000;
+        let lim: i128 = 8_640_000_000_000_000_000_000;
+        for k in [0i128, -1, 1, -2, -365, 366, -719_468, -100_000_000, 100_000_000, -99_999_999, 99_999_999] {
+            for r in [0i128, 1, -1, 999, -999, 1000, -1000, 999_999, -999_999, 1_000_000, -1_000_000, 1_000_001, -1_000_001, 999_999_999, -999_999_999] {
+                let ns = k * day_ns + r;
+                if ns.abs() > lim { continue; }
+                for z in ["o:0", "o:60", "o:-570", "o:1439"] {
+                    v.push(format!("tz_conv {z} {ns}"));
+                }
+            }
+        }
+        for _ in 0..(if thorough { 20_000 } else { 2_000 }) {
+            let k = rng.range(-100_000_000, 100_000_000);
+            let r = *rng.pick(&[1i128, 999, 1000, 999_999, 1_000_000, 1_000_001, 123_456_789]);
+            let ns = (k * day_ns - r).clamp(-lim, lim);
+            v.push(format!("tz_conv o:{} {ns}", rng.range(-1439, 1439)));
+        }
+    }
     // (5) date-time <-> epoch ns
     let day_ns: i128 = 86_400_000_000_000;
     for _ in 0..(if thorough { 300_000 } else { 40_000 }) {
